@@ -93,7 +93,9 @@ Definition pDump : P sdump :=
           d_comps := comps; d_subs := subs; d_actions := acts; d_assets := assets; d_frames := fr |}.
 
 Definition pMsg : P msg :=
-  LET t <- pN IN
+  LET z <- pZ IN
+  if (z <? 0)%Z then LET a <- pZ IN pret (MBad z a) else
+  let t := Z.to_N z in
   match t with
   | 39 => LET r <- pN IN pret (MPingResp r)
   | 38 => LET r <- pN IN pret (MPingReq r)
@@ -200,6 +202,7 @@ Definition enc_msg (m : msg) : list Z :=
       43 :: zn r :: zn n :: eNs ids ++ [zn u; zn c; zn w] ++ eB s ++ eB g
   | MDagazResp k r => [zn k; zn r]
   | MSnap ss g q => 9100 :: eL eDump ss ++ [g] ++ eL (λ cn, [zn (fst cn); zn (snd cn)]) q
+  | MBad c a => [c; a]
   end%Z.
 
 Definition enc_verdict (v : verdict) : Z :=
